@@ -125,4 +125,25 @@ def render (v : Variant) (file : Bytes) (isHead : Bool) (hdr : Option Str) : Res
           ⟨206, some (first, last, filesize), contentsize,
             if isHead then [] else nodeRead file first.toNat (some contentsize.toNat)⟩
 
+/-- `FileDownloader.render` over an arbitrary node: `size` is `filenode.get_size()` and `rd offset size` is what
+`filenode.read(req, offset, size)` delivers.  `render v file` is the instance for a node that holds `file` in memory
+(`Tahoe/Web/Lemmas.lean`: `render_eq_renderWith`); the real CHK / SDMF / MDMF nodes are other instances. -/
+def renderWith (v : Variant) (filesize : Nat) (rd : Nat → Option Nat → Bytes) (isHead : Bool) (hdr : Option Str) : Resp :=
+  let full : Resp := ⟨200, none, filesize, if isHead then [] else rd 0 none⟩
+  match hdr with
+  | none => full
+  | some h =>
+    if h.isEmpty then full
+    else match parseRangeHeader v filesize h with
+      | none => full
+      | some [] => full
+      | some ((first, last) :: _) =>
+        if first ≥ (filesize : Int) then ⟨416, none, 0, []⟩
+        else
+          let first := max 0 first
+          let last := min ((filesize : Int) - 1) last
+          let contentsize := last - first + 1
+          ⟨206, some (first, last, filesize), contentsize,
+            if isHead then [] else rd first.toNat (some contentsize.toNat)⟩
+
 end Tahoe.Web
